@@ -18,13 +18,14 @@ import (
 )
 
 type CaseC16 struct {
-	Src     string                 `json:"src"` // value | doc | seq
-	Map     map[string]interface{} `json:"map,omitempty"`
-	Doc     *XElem                 `json:"doc,omitempty"`
-	Shuffle []int                  `json:"shuffle"` // drives insertion order and capacities of the rebuilt copies
-	Prefix  string                 `json:"prefix"`
-	Ind     string                 `json:"ind"`
-	GoEmpty bool                   `json:"go_empty,omitempty"`
+	Src        string                 `json:"src"` // value | doc | seq
+	Map        map[string]interface{} `json:"map,omitempty"`
+	Doc        *XElem                 `json:"doc,omitempty"`
+	Shuffle    []int                  `json:"shuffle"` // drives insertion order and capacities of the rebuilt copies
+	Prefix     string                 `json:"prefix"`
+	Ind        string                 `json:"ind"`
+	GoEmpty    bool                   `json:"go_empty,omitempty"`
+	CheckValid bool                   `json:"check_valid,omitempty"` // XmlCheckIsValid on: with escaping on every output is valid, so nothing may change
 }
 
 func init() { register("C16", checkC16) }
@@ -61,6 +62,7 @@ func genC16(t *rapid.T) CaseC16 {
 	c.Prefix = rapid.SampledFrom(blanks).Draw(t, "prefix")
 	c.Ind = rapid.SampledFrom(blanks).Draw(t, "ind")
 	c.GoEmpty = rapid.IntRange(0, 3).Draw(t, "goempty") == 0
+	c.CheckValid = rapid.IntRange(0, 3).Draw(t, "checkvalid") == 0
 	return c
 }
 
@@ -212,6 +214,10 @@ func checkC16(c CaseC16, info *Info) *Failure {
 	mxj.XMLEscapeChars(true)
 	if c.GoEmpty {
 		mxj.XmlGoEmptyElemSyntax()
+	}
+	if c.CheckValid {
+		mxj.XmlCheckIsValid(true)
+		info.Class("validity check on")
 	}
 	info.Class("src:" + c.Src)
 	s := &intStream{v: c.Shuffle}
